@@ -69,6 +69,7 @@ type translator struct {
 	spec   *trSpec
 	fset   *token.FileSet
 	ignore []*regexp.Regexp
+	brk    []cont // innermost enclosing switch / select: where an unlabelled break goes (empty: the unit's own loop)
 }
 
 var wsRe = regexp.MustCompile(`\s+`)
@@ -230,6 +231,11 @@ func (t *translator) expr(x ast.Expr, e renv) (string, string) {
 				r = "(wrap32 " + r + ")"
 			}
 			return r, "Z"
+		case token.QUO, token.REM: // Go integer division truncates toward zero
+			if ta != "Z" || tb != "Z" {
+				panic(trErr{"arithmetic on non-integers in " + t.text(x)})
+			}
+			return bin(map[token.Token]string{token.QUO: "Z.quot", token.REM: "Z.rem"}[v.Op]), "Z"
 		}
 	}
 	panic(trErr{"expression outside the translated subset: " + t.text(x)})
@@ -253,6 +259,19 @@ func (t *translator) ignored(txt string) bool {
 }
 
 type cont func(acts []int, e renv) string
+
+// scoped makes a continuation run with the break targets in force where it was created (the statements after a
+// switch are outside that switch)
+func (t *translator) scoped(k cont) cont {
+	outer := append([]cont{}, t.brk...)
+	return func(a []int, e renv) string {
+		saved := t.brk
+		t.brk = outer
+		r := k(a, e)
+		t.brk = saved
+		return r
+	}
+}
 
 func appendAct(acts []int, a int) []int {
 	n := make([]int, len(acts)+1)
@@ -311,6 +330,9 @@ func (t *translator) stmts(l []ast.Stmt, acts []int, e renv, k cont) string {
 			}
 		case token.BREAK:
 			if v.Label == nil {
+				if n := len(t.brk); n > 0 {
+					return t.brk[n-1](acts, e) // leaves the switch / select, not the loop
+				}
 				return leaf(acts, "Brk")
 			}
 		}
@@ -347,7 +369,9 @@ func (t *translator) stmts(l []ast.Stmt, acts []int, e renv, k cont) string {
 		if v.Init != nil {
 			panic(trErr{"switch with initialiser"})
 		}
-		after := func(a []int, in renv) string { return next(a, e.leave(in)) }
+		after := t.scoped(func(a []int, in renv) string { return next(a, e.leave(in)) })
+		t.brk = append(t.brk, after)
+		defer func() { t.brk = t.brk[:len(t.brk)-1] }()
 		var clauses []*ast.CaseClause
 		var def *ast.CaseClause
 		for _, c := range v.Body.List {
@@ -392,6 +416,40 @@ func (t *translator) stmts(l []ast.Stmt, acts []int, e renv, k cont) string {
 			return "(if " + c + "\n then " + t.stmts(cc.Body, acts, e, after) + "\n else " + build(i+1) + ")"
 		}
 		return build(0)
+	case *ast.SelectStmt:
+		// which communication is taken is an input: one boolean atom per clause but the last, named by the text of
+		// its communication statement ("x := <-ch"); the last clause (or default) is taken when none of them is
+		after := t.scoped(func(a []int, in renv) string { return next(a, e.leave(in)) })
+		t.brk = append(t.brk, after)
+		defer func() { t.brk = t.brk[:len(t.brk)-1] }()
+		var clauses []*ast.CommClause
+		var def *ast.CommClause
+		for _, c := range v.Body.List {
+			cc := c.(*ast.CommClause)
+			if cc.Comm == nil {
+				def = cc
+			} else {
+				clauses = append(clauses, cc)
+			}
+		}
+		if def == nil && len(clauses) > 0 {
+			def, clauses = clauses[len(clauses)-1], clauses[:len(clauses)-1]
+		}
+		var buildSel func(i int) string
+		buildSel = func(i int) string {
+			if i == len(clauses) {
+				if def != nil {
+					return t.stmts(def.Body, acts, e, after)
+				}
+				return next(acts, e)
+			}
+			a, ok := t.atom(t.text(clauses[i].Comm), e)
+			if !ok || a.Ty != "bool" {
+				panic(trErr{"select communication not a boolean atom: " + t.text(clauses[i].Comm)})
+			}
+			return "(if " + a.Coq + "\n then " + t.stmts(clauses[i].Body, acts, e, after) + "\n else " + buildSel(i+1) + ")"
+		}
+		return buildSel(0)
 	case *ast.EmptyStmt:
 		return next(acts, e)
 	case *ast.RangeStmt, *ast.ForStmt:
